@@ -217,19 +217,7 @@ func (g *c05Gen) observe(ctx sdk.Context, ids *c04IDs) c05Env {
 	it.Close()
 	for i, a := range g.w.Assets {
 		ai := c05AInfo{ID: i, Price: "0"}
-		p, err := app.OracleKeeper.GetMultipleAssetsPrices(ctx, map[string]interface{}{a.ID: nil})
-		switch {
-		case err == nil:
-			ai.Class = "ok"
-		case oracletypes.ErrGetPriceRoundNotFound.Is(err):
-			ai.Class = "default"
-		default:
-			ai.Class = "missing"
-		}
-		if ai.Class != "missing" {
-			ai.Price = intZ(p[a.ID].Value)
-			ai.PDec = int64(p[a.ID].Decimal)
-		}
+		ai.Class, ai.Price, ai.PDec = g.w.oraclePrice(ctx, a.ID)
 		info, err := app.AssetsKeeper.GetStakingAssetInfo(ctx, a.ID)
 		if err != nil {
 			panic(err)
@@ -478,7 +466,7 @@ func (g *c05Gen) changeAssetList(ctx sdk.Context, addr string, empty bool) bool 
 	list := []string{}
 	if !empty {
 		for ai, as := range g.w.Assets {
-			if ai < 4 && g.rng.Intn(2) == 0 {
+			if ai != 4 && g.rng.Intn(2) == 0 {
 				list = append(list, as.ID)
 			}
 		}
